@@ -756,6 +756,15 @@ func replay(o hx.Opts) {
 	case "parse":
 		r := checkParseCfg(src, d["native_funcs"] == true, "replay", rep)
 		fmt.Printf("ParseProgram: panic=%v err=%v\n", r.panicVal, r.err)
+	case "context":
+		off := -1
+		if f, ok := d["probe_offset"].(float64); ok {
+			off = int(f)
+		}
+		c := ctxCase{src: string(src), probe: fmt.Sprint(d["probe"]), legal: d["legal"] == true, probeOff: off, where: "replay"}
+		checkContext(c, "replay", rep)
+		r := parseImpl(src)
+		fmt.Printf("ParseProgram: panic=%v err=%v (probe %q at offset %d, legal there: %v)\n", r.panicVal, r.err, c.probe, c.probeOff, c.legal)
 	case "cli":
 		buildCLI(rep)
 		checkCLI(src, "replay", rep)
@@ -932,6 +941,12 @@ func main() {
 			erroring = append(erroring, len(parseOnly)-1)
 		}
 	}
+	// 4c. context-state histories with a reference verdict (context.go)
+	nctx := 12000
+	if thorough {
+		nctx = 400000
+	}
+	runContextFamily(r, nctx, rep)
 	rep.Hist["parse:resolve-family-accepted"] = accepted
 	rep.Hist["parse:erroring"] = len(erroring)
 	fmt.Fprintln(os.Stderr, "parse cases", len(parseOnly), time.Since(t0))
